@@ -152,10 +152,14 @@ def end_to_end(run, n):
     rng = run.rng
     with minibase.Scratch() as sc:
         for i in range(n):
-            g, files = W.gen_closed(rng, hostile=False, n_ns=1)
-            vars_ = [k for k in g["order"] if g["nodes"][k]["cls"] == "UAVariable" and g["nodes"][k]["value"] is not None
-                     and g["nodes"][k]["value"]["t"] in ("Int32", "String", "Double", "Boolean")]
-            inject = bool(vars_) and rng.random() < 0.6
+            want_inject = i % 2 == 0            # every other case is a rejected write
+            for _ in range(30):
+                g, files = W.gen_closed(rng, hostile=False, n_ns=1)
+                vars_ = [k for k in g["order"] if g["nodes"][k]["cls"] == "UAVariable" and g["nodes"][k]["value"] is not None
+                         and g["nodes"][k]["value"]["t"] in ("Int32", "String", "Double", "Boolean")]
+                if vars_ or not want_inject:
+                    break
+            inject = bool(vars_) and want_inject
             bad_name = None
             if inject:
                 k = rng.choice(vars_)
@@ -178,6 +182,15 @@ def end_to_end(run, n):
             except Exception as e:  # noqa: BLE001
                 res = type(e).__name__ + ":" + str(e)[:200]
             exists = os.path.exists(out)
+            # the same call with an in-memory target: nothing may have been written into it when the write is rejected
+            import io as _io
+            buf = _io.StringIO()
+            try:
+                G.write_nodeset(buf, uri, last_modified=W.FIXED, publication_date=W.FIXED)
+            except Exception:  # noqa: BLE001
+                pass
+            if inject and buf.getvalue() != "":
+                exists = "StringIO target holds %d characters" % len(buf.getvalue())
             ok = (res == "written" and exists and not inject) or (inject and res.startswith("ValidationError") and not exists and "['BadOne']" in res)
             if not ok:
                 run.violation({"files": files, "uri": uri}, {"what": "write_nodeset validation end to end", "impl": res[:400], "output_exists": exists,
